@@ -87,14 +87,16 @@ def _obs_qtz(q) -> Dict[str, Any]:
     th = q.theta_alpha
     return {"tr": bool(q.training), "hd": bool(q.hard_softmax), "sp": _sampler(q),
             "t4": int(round(float(q.temperature) * 1e4)),
-            "al": _cols(q.alpha, 1e4), "th": _cols(th, 1e6), "nn": bool((th.detach() >= 0).all())}
+            "al": _cols(q.alpha, 1e4), "th": _cols(th, 1e6), "nn": bool((th.detach() >= 0).all()),
+            "sl": bool(q.alpha.requires_grad)}
 
 
 def _obs_comb(c) -> Dict[str, Any]:
     th = c.theta_alpha
     return {"tr": bool(c.training), "hd": bool(c.hard_softmax), "sp": _sampler(c),
             "t4": int(round(float(c.softmax_temperature) * 1e4)),
-            "al": _cols(c.alpha, 1e4), "th": _cols(th, 1e6), "nn": bool((th.detach() >= 0).all())}
+            "al": _cols(c.alpha, 1e4), "th": _cols(th, 1e6), "nn": bool((th.detach() >= 0).all()),
+            "sl": bool(c.alpha.requires_grad)}
 
 
 def _target(obj, mat: List[List[int]]):
@@ -173,7 +175,9 @@ class BareMPS:
                           hard_softmax=init["hd"], gumbel_softmax=init["gum"], disable_sampling=init["dis"])
         self.dp = [{"k": "mps", "ctor": "bare"}]
         self.shape = [(n, c if cfg["form"] == "channel" else 1)]
-        self.init_v = {"hd": init["hd"], "gum": init["gum"], "dis": init["dis"], "t4": init["t4"], "smp": True}
+        self.q.alpha.requires_grad = bool(init.get("sel", True))
+        self.init_v = {"hd": init["hd"], "gum": init["gum"], "dis": init["dis"], "t4": init["t4"], "smp": True,
+                       "sel": bool(init.get("sel", True))}
         self.donor = None
 
     def observe(self):
@@ -217,8 +221,10 @@ class BareMPS:
             _write_alpha([q], v["al"], v["wk"])
         elif a == "load":
             vlog = self._load(v)
+        elif a == "freeze" and v in ("freeze_attr", "unfreeze_attr"):
+            q.alpha.requires_grad = (v == "unfreeze_attr")
         else:
-            raise MachineryError(f"BareMPS: action {a} not applicable")
+            raise MachineryError(f"BareMPS: action {a} {v!r} not applicable")
         return [], [[]], vlog
 
 
@@ -230,12 +236,13 @@ class BareSN:
         self.gen = gen
         self.n = cfg["N"]
         self.c = P["SuperNetCombiner"](self.n, init["gum"], init["hd"])
-        self.c.train_selection = True
+        self.c.train_selection = bool(init.get("sel", True))     # (a combiner is built frozen; SuperNet.__init__ unfreezes it)
         self.c.softmax_temperature = init["t4"] / 1e4
         _set_alpha(self.c, init["alpha0"][0])
         self.dp = [{"k": "sn", "ctor": "bare"}]
         self.shape = [(self.n, 1)]
-        self.init_v = {"hd": init["hd"], "gum": init["gum"], "dis": False, "t4": init["t4"], "smp": False}
+        self.init_v = {"hd": init["hd"], "gum": init["gum"], "dis": False, "t4": init["t4"], "smp": False,
+                       "sel": bool(init.get("sel", True))}
         self.donor = None
 
     def observe(self):
@@ -272,6 +279,8 @@ class BareSN:
             _write_alpha([c], v["al"], v["wk"])
         elif a == "load":
             vlog = self._load(v)
+        elif a == "freeze" and v in ("freeze_attr", "unfreeze_attr"):
+            c.train_selection = (v == "unfreeze_attr")
         elif a == "summary":
             s = c.summary()["supernet_branches"]
             rv = [[int(round(float(s[f"branch_{i}"]["alpha"]) * 1e6)) if f"branch_{i}" in s else -1
@@ -324,7 +333,7 @@ class ModelMPS:
         self.dp = [{"k": "mps", "ctor": "model"} for _ in self.q]
         self.shape = [(q.alpha.shape[0], q.alpha.shape[1] if q.alpha.dim() == 2 else 1) for q in self.q]
         self.prec = [[int(p) for p in q.precision.tolist()] for q in self.q]
-        self.init_v = {"hd": init["hd"], "gum": init["gum"], "dis": init["dis"], "t4": init["t4"], "smp": False}
+        self.init_v = {"hd": init["hd"], "gum": init["gum"], "dis": init["dis"], "t4": init["t4"], "smp": False, "sel": True}
         self.skipped_slots = 0
         self.export_left_eval = 0
         self.donor = None
@@ -444,6 +453,8 @@ class ModelMPS:
             _write_alpha(self.q, v["al"], v["wk"])
         elif a == "load":
             vlog = self._load(v)
+        elif a == "freeze" and v in ("net_only", "nas_only", "net_and_nas"):
+            getattr(m, "train_" + v)()               # DNAS.train_net_only / train_nas_only / train_net_and_nas
         elif a == "summary":
             rep = self._summary()
         elif a == "export":
@@ -500,7 +511,7 @@ class ModelSN:
             _set_alpha(c, mat)
         self.dp = [{"k": "sn", "ctor": "model"} for _ in self.c]
         self.shape = [(c.n_branches, 1) for c in self.c]
-        self.init_v = {"hd": init["hd"], "gum": init["gum"], "dis": False, "t4": init["t4"], "smp": False}
+        self.init_v = {"hd": init["hd"], "gum": init["gum"], "dis": False, "t4": init["t4"], "smp": False, "sel": True}
         self.export_left_eval = 0
         self.donor = None
 
@@ -542,6 +553,10 @@ class ModelSN:
             _write_alpha(self.c, v["al"], v["wk"])
         elif a == "load":
             vlog = self._load(v)
+        elif a == "freeze" and v in ("net_only", "nas_only", "net_and_nas"):
+            getattr(m, "train_" + v)()
+        elif a == "freeze" and v in ("freeze_attr", "unfreeze_attr"):
+            m.train_selection = (v == "unfreeze_attr")
         elif a == "summary":
             s = m.summary()
             rv = []
@@ -600,7 +615,7 @@ def execute(sc: Dict[str, Any], open_ids: List[str]) -> Tuple[Dict[str, Any], An
         rep, rv, vlog = drv.step(a, v)
         obs = drv.observe()
         _check_domain(obs)
-        if a in ("temp", "hard", "gumbel", "disable"):
+        if a in ("temp", "hard", "gumbel", "disable", "freeze"):
             lv = v
         elif a == "fwd":
             lv = bool(v)                                   # grad mode
@@ -671,7 +686,7 @@ def _parse_label(lab: str) -> Tuple[str, List[Any]]:
     name, arg = m.group(1), m.group(2)
     args = list(tlc.parse_value("<<" + arg + ">>")) if arg is not None else []
     table = {"UpdTemp": "temp", "UpdHard": "hard", "UpdGumbel": "gumbel", "UpdDisable": "disable", "ModeTrain": "train",
-             "ModeEval": "eval", "Forward": "fwd", "SetAlpha": "alpha", "Load": "load", "Summarize": "summary",
+             "ModeEval": "eval", "Forward": "fwd", "SetAlpha": "alpha", "Load": "load", "SetSel": "freeze", "Summarize": "summary",
              "Export": "export"}
     if name not in table:
         raise MachineryError(f"unknown action {name}")
@@ -773,17 +788,26 @@ def cover(nodes, edges, init, applicable, seg_len: int, rng: random.Random, stat
 
     for s in init:                       # every initial state (constructor combination) is built at least once
         run_segment(s, must_work=False)
-    order = list(init)
-    k = 0
-    idle = 0
+    def nearest_start():
+        """the initial state with the shortest path to a state that still has an unvisited edge"""
+        dist = {u: 0 for u in init}
+        root = {u: u for u in init}
+        dq = deque(init)
+        while dq:
+            u = dq.popleft()
+            if next_unvisited(u) is not None:
+                return root[u]
+            for v in succ[u]:
+                if v not in dist:
+                    dist[v] = dist[u] + 1
+                    root[v] = root[u]
+                    dq.append(v)
+        return None
+
     while remaining > 0:
-        if run_segment(order[k % len(order)], must_work=True):
-            idle = 0
-        else:
-            idle += 1
-            if idle > len(order):
-                raise MachineryError(f"covering walk: {remaining} edges unreachable from the initial states")
-        k += 1
+        start = nearest_start()
+        if start is None or not run_segment(start, must_work=True):
+            raise MachineryError(f"covering walk: {remaining} edges unreachable from the initial states")
     return segments
 
 
@@ -804,7 +828,7 @@ def scenarios_from_graph(nodes, edges, init, driver: str, cfg_of, applicable, se
         st = nodes[start]["st"]
         cfg = cfg_of(st)
         shape = cfg["_shape"]
-        ini = {"hd": st["hard"], "gum": st["gum"], "dis": st["dis"], "t4": _temp(rng, st["temp"])}
+        ini = {"hd": st["hard"], "gum": st["gum"], "dis": st["dis"], "t4": _temp(rng, st["temp"]), "sel": bool(st["sel"])}
         steps: List[Any] = []
         rk0 = [list(r) for r in st["rank"]]
         if driver in ("bare_sn", "model_sn"):
@@ -817,6 +841,8 @@ def scenarios_from_graph(nodes, edges, init, driver: str, cfg_of, applicable, se
                 steps.append([a, _temp(rng, args[0])])
             elif a in ("hard", "gumbel", "disable", "fwd"):
                 steps.append([a, bool(args[0])])
+            elif a == "freeze":
+                steps.append([a, args[0]])
             elif a == "alpha":
                 steps.append([a, {"wk": args[1], "al": _alpha_step(rng, [list(r) for r in args[0]], shape)}])
             elif a == "load":
@@ -867,14 +893,20 @@ def random_scenario(rng: random.Random, driver: str) -> Dict[str, Any]:
         cfg = {"form": form, "prec": prec, "C": c if form == "channel" else 3,
                "qtz": "minmax" if form == "channel" else rng.choice(["pact", "minmax"])}
         shape = [(n, c if form == "channel" else 1)]
-        acts = ["temp", "hard", "gumbel", "disable", "train", "eval", "eval", "fwd", "fwd", "fwd", "alpha", "alpha", "load"]
+        acts = ["temp", "hard", "gumbel", "disable", "train", "eval", "eval", "fwd", "fwd", "fwd", "alpha", "alpha", "load",
+                "freeze", "freeze"]
+        hows = ["freeze_attr", "unfreeze_attr"]
+        ini["sel"] = rng.random() < 0.7
     elif driver == "bare_sn":
         n = rng.randint(1, 8)
         cfg = {"N": n}
         shape = [(n, 1)]
         ini["dis"] = False
         ini["alpha0"] = _rand_alpha(rng, shape)
-        acts = ["temp", "hard", "train", "eval", "eval", "fwd", "fwd", "fwd", "alpha", "alpha", "load", "summary", "export"]
+        acts = ["temp", "hard", "train", "eval", "eval", "fwd", "fwd", "fwd", "alpha", "alpha", "load", "summary", "export",
+                "freeze", "freeze"]
+        hows = ["freeze_attr", "unfreeze_attr"]
+        ini["sel"] = rng.random() < 0.5
     elif driver == "model_mps":
         w = rng.choice(["layer", "channel"])
         a_prec = rng.choice([[2, 4, 8], [4, 8], [8], [2, 4, 6, 8], [8, 4, 2]])
@@ -886,27 +918,38 @@ def random_scenario(rng: random.Random, driver: str) -> Dict[str, Any]:
         shape = [(na, 1), (na, 1), (nw, chans["c1"] if w == "channel" else 1), (na, 1),
                  (nw, chans["c2"] if w == "channel" else 1), (1, 1), (nw, chans["fc"] if w == "channel" else 1)]
         acts = ["temp", "hard", "gumbel", "disable", "train", "eval", "eval", "fwd", "fwd", "alpha", "alpha", "load",
-                "summary", "export"]
+                "summary", "export", "freeze", "freeze"]
+        hows = ["net_only", "net_only", "nas_only", "net_and_nas"]
+        ini["sel"] = True
     elif driver == "model_sn":
         blocks = [rng.randint(1, 8) for _ in range(rng.randint(1, 3))]
         cfg = {"blocks": blocks, "wseed": rng.randrange(1000)}
         shape = [(n, 1) for n in blocks]
         ini["dis"] = False
         ini["alpha0"] = _rand_alpha(rng, shape)
-        acts = ["temp", "hard", "train", "eval", "eval", "fwd", "fwd", "alpha", "alpha", "load", "summary", "export"]
+        acts = ["temp", "hard", "train", "eval", "eval", "fwd", "fwd", "alpha", "alpha", "load", "summary", "export",
+                "freeze", "freeze"]
+        hows = ["net_only", "freeze_attr", "nas_only", "net_and_nas", "unfreeze_attr"]
+        ini["sel"] = True
     else:
         raise MachineryError(driver)
     steps: List[Any] = []
+    sel = ini["sel"]
     for _ in range(rng.randint(4, 24)):
         a = rng.choice(acts)
-        if a == "temp":
+        if a == "freeze":
+            how = rng.choice(hows)
+            sel = how not in ("freeze_attr", "net_only")
+            steps.append([a, how])
+        elif a == "temp":
             steps.append([a, _rand_temp(rng)])
         elif a in ("hard", "gumbel", "disable"):
             steps.append([a, rng.random() < 0.5])
         elif a == "fwd":
             steps.append([a, rng.random() < 0.5])                      # grad enabled / torch.no_grad()
         elif a == "alpha":
-            steps.append([a, {"wk": rng.choice(["copy", "data", "optim"]), "al": _rand_alpha(rng, shape)}])
+            steps.append([a, {"wk": rng.choice(["copy", "data", "optim"] if sel else ["copy", "data"]),   # frozen: no optimizer
+                              "al": _rand_alpha(rng, shape)}])
         elif a == "load":
             steps.append([a, {"ck": rng.choice(["onehot", "soft", "probF", "probT"]), "al": _rand_alpha(rng, shape),
                               "t4": _rand_temp(rng)}])
@@ -914,6 +957,45 @@ def random_scenario(rng: random.Random, driver: str) -> Dict[str, Any]:
             steps.append([a, 0])
     return {"kind": "random", "driver": driver, "cfg": cfg, "init": ini, "steps": steps, "tseed": rng.randrange(1 << 30),
             "_shape": shape}
+
+
+def pinned_scenarios() -> List[Dict[str, Any]]:
+    """Deterministic histories that every run executes (independent of the seed): the coefficients are frozen,
+    then something that must change the sample happens (option update, write to alpha, checkpoint), then a
+    forward pass - for every sampler kind and hard flag at construction, on every kind of object / model."""
+    _setup()
+    rng = random.Random(20260926)
+    out = []
+
+    def al(shape, k):          # coefficients whose winner is candidate (k mod N) + 1 in every vector
+        return [[_alpha_from_ranking(rng, [((i - k - 1) % n) + 1 for i in range(n)]) for _ in range(c)] for n, c in shape]
+
+    targets = [("bare_mps", {"form": "layer", "prec": [2, 4, 8], "C": 3, "qtz": "pact"}, [(3, 1)], ["freeze_attr"]),
+               ("bare_mps", {"form": "channel", "prec": [2, 4, 8], "C": 3, "qtz": "minmax"}, [(3, 3)], ["freeze_attr"]),
+               ("bare_sn", {"N": 3}, [(3, 1)], ["freeze_attr"]),
+               ("model_mps", {"w": "layer", "a_prec": [2, 4, 8], "w_prec": [2, 4, 8]},
+                [(3, 1)] * 5 + [(1, 1), (3, 1)], ["net_only"]),
+               ("model_mps", {"w": "channel", "a_prec": [4, 8], "w_prec": [2, 4, 8]},
+                [(2, 1), (2, 1), (3, 4), (2, 1), (3, 3), (1, 1), (3, 5)], ["net_only"]),
+               ("model_sn", {"blocks": [3, 2]}, [(3, 1), (2, 1)], ["net_only", "freeze_attr"])]
+    for driver, cfg, shape, hows in targets:
+        for gum in (False, True):
+            for hd in (False, True):
+                for how in hows:
+                    changes = [[["hard", not hd]], [["temp", 500]],
+                               [["alpha", {"wk": "copy", "al": al(shape, 0)}]], [["alpha", {"wk": "data", "al": al(shape, 1)}]],
+                               [["load", {"ck": "soft", "al": al(shape, 0), "t4": 20000}]]]
+                    for ch in changes:
+                        ini = {"hd": hd, "gum": gum, "dis": False, "t4": 10000, "sel": True}
+                        if driver in ("bare_sn", "model_sn"):
+                            ini["alpha0"] = al(shape, 2)
+                        steps = [["alpha", {"wk": "copy", "al": al(shape, 2)}], ["fwd", True], ["freeze", how]] + ch + \
+                                [["fwd", True], ["eval", 0], ["fwd", True], ["fwd", False], ["summary", 0], ["export", 0]]
+                        if driver == "bare_mps":
+                            steps = [x for x in steps if x[0] not in ("summary", "export")]
+                        out.append({"kind": "pinned", "driver": driver, "cfg": cfg, "init": ini, "steps": steps,
+                                    "tseed": 7 + len(out)})
+    return out
 
 
 # ----------------------------------------------------------------------------------------------
@@ -1032,11 +1114,15 @@ def run(tier: str, seed: int, replay: Optional[str] = None) -> int:
                "Summarize", "Export"]
     all_sn = ["UpdTemp", "UpdHard", "ModeTrain", "ModeEval", "Forward", "SetAlpha", "Load", "Summarize", "Export"]
     mod_mps = all_mps if thorough else [a for a in all_mps if a not in ("UpdTemp", "UpdDisable")]
-    SANITY = (("SelectionMC_sn_nokf", "OneHotAtArgmax"), ("SelectionMC_sn_sumsamples", "ReportIsArgmax"),
-              ("SelectionMC_mps_skipflag", "OneHotAtArgmax"), ("SelectionMC_mps_skipver", "OneHotAtArgmax"),
-              ("SelectionMC_sn_skipflag", "OneHotAtArgmax"))
+    broken = {"ForwardSamples", "OneHotAtArgmax", "SoftKeepsWinner", "GumbelTraining"}
+    SANITY = (("SelectionMC_sn_nokf", {"OneHotAtArgmax"}), ("SelectionMC_sn_sumsamples", {"ReportIsArgmax"}),
+              ("SelectionMC_mps_skipflag", {"OneHotAtArgmax"}), ("SelectionMC_mps_skipver", {"OneHotAtArgmax"}),
+              ("SelectionMC_sn_skipflag", {"OneHotAtArgmax", "ForwardSamples"}),
+              ("SelectionMC_sn_trainonly", broken), ("SelectionMC_mps_trainonly", broken))
     graphs = [f"SelectionMC_mps_{optimpl}_{sfx}", f"SelectionMC_sn_{sfx}", f"SelectionMC_pc_{optimpl}_{sfx}",
-              f"SelectionMC_pcw_{optimpl}_{sfx}", f"SelectionMC_mpsmodel_{optimpl}_{sfx}", f"SelectionMC_snmodel_{sfx}"] + \
+              f"SelectionMC_pcw_{optimpl}_{sfx}", f"SelectionMC_mpsmodel_{optimpl}_{sfx}", f"SelectionMC_snmodel_{sfx}",
+              f"SelectionMC_mpsfrz_{optimpl}_{sfx}", f"SelectionMC_mmfrz_{optimpl}_{sfx}", f"SelectionMC_snfrz_{sfx}",
+              f"SelectionMC_smfrz_{sfx}"] + \
              ([f"SelectionMC_mps_{optimpl}_thorough3", "SelectionMC_sn_thorough3"] if thorough else [])
     plain = [f"SelectionMC_mps_{other}_{sfx}", f"SelectionMC_sn_ref_{sfx}"] + [c for c, _ in SANITY]
     global PRE
@@ -1052,11 +1138,12 @@ def run(tier: str, seed: int, replay: Optional[str] = None) -> int:
         #  sn_sumsamples : summary() re-samples (the pinned code, repaired in the tree)
         #  *_skipflag / mps_skipver : an inference-time short cut (eval mode + torch.no_grad()) that keeps a cached
         #                  theta_alpha across writes to alpha
-        for cfg, clause in SANITY:
+        #  *_trainonly   : the forward pass re-samples only while alpha is trainable
+        for cfg, clauses in SANITY:
             bad = R.design("SelectionMC", cfg, expect_ok=False, workers=2)
             got = {v["name"] for v in bad.violations}
-            if clause not in got:
-                raise MachineryError(f"sanity config {cfg} violated {sorted(got)}, expected {clause}")
+            if not (got & clauses):
+                raise MachineryError(f"sanity config {cfg} violated {sorted(got)}, expected one of {sorted(clauses)}")
         # per-channel enumeration: every ranking matrix x every constructor option x mode, one forward pass per grad mode
         G["pc"] = _graph(R, f"SelectionMC_pc_{optimpl}_{sfx}", ["ModeTrain", "ModeEval", "Forward"])
         # per-channel writes: every way of writing alpha between forward passes of either grad mode, every constructor option
@@ -1065,6 +1152,12 @@ def run(tier: str, seed: int, replay: Optional[str] = None) -> int:
         # whole models
         G["mm"] = _graph(R, f"SelectionMC_mpsmodel_{optimpl}_{sfx}", mod_mps)
         G["sm"] = _graph(R, f"SelectionMC_snmodel_{sfx}", all_sn)
+        # trainability of alpha: freeze / unfreeze interleaved with option updates, writes, checkpoints and forward passes
+        frz = ["UpdHard", "ModeTrain", "ModeEval", "Forward", "SetAlpha", "Load", "SetSel"]
+        G["mpsfrz"] = _graph(R, f"SelectionMC_mpsfrz_{optimpl}_{sfx}", frz)
+        G["mmfrz"] = _graph(R, f"SelectionMC_mmfrz_{optimpl}_{sfx}", frz if thorough else [a for a in frz if a != "Load"])
+        G["snfrz"] = _graph(R, f"SelectionMC_snfrz_{sfx}", frz + ["UpdTemp"])
+        G["smfrz"] = _graph(R, f"SelectionMC_smfrz_{sfx}", frz + ["UpdTemp"])
         if thorough:        # three temperature classes in addition
             G["mps3"] = _graph(R, f"SelectionMC_mps_{optimpl}_thorough3", all_mps)
             G["sn3"] = _graph(R, "SelectionMC_sn_thorough3", all_sn)
@@ -1138,13 +1231,30 @@ def run(tier: str, seed: int, replay: Optional[str] = None) -> int:
     ns = n_of(G["sm"])
     scen += scenarios_from_graph(*G["sm"], "model_sn", lambda st: {"blocks": [ns, ns], "_shape": [(ns, 1), (ns, 1)]},
                                  every, seg_len, rng, what=f"SuperNet model, two blocks / snmodel_{sfx}: every edge")
+    # trainability switch
+    scen += bare_layer(G["mpsfrz"], f"MPSPerLayerQtz / mpsfrz_{optimpl}_{sfx} (alpha frozen / trainable): every edge")
+    scen += bare_channel(G["mpsfrz"], f"MPSPerChannelQtz (4 channels) / mpsfrz_{optimpl}_{sfx}: every edge")
+    scen += bare_sn(G["snfrz"], f"SuperNetCombiner / snfrz_{sfx} (train_selection): every edge")
+    nf = n_of(G["mmfrz"])
+    scen += scenarios_from_graph(*G["mmfrz"], "model_mps",
+                                 lambda st: {"w": "layer", "a_prec": prec_for(st, nf), "w_prec": prec_for(st, nf),
+                                             "_shape": [(nf, 1)] * 5 + [(1, 1), (nf, 1)]},
+                                 every, seg_len, rng,
+                                 what=f"MPS model / mmfrz_{optimpl}_{sfx} (train_net_only / train_nas_only / train_net_and_nas): every edge")
+    nz = n_of(G["smfrz"])
+    scen += scenarios_from_graph(*G["smfrz"], "model_sn", lambda st: {"blocks": [nz, nz], "_shape": [(nz, 1), (nz, 1)]},
+                                 every, seg_len, rng,
+                                 what=f"SuperNet model / smfrz_{sfx} (train_selection, train_net_only / nas_only / net_and_nas): every edge")
     R.extra["covering_walks"] = list(JOBS)
     n_graph_scen = len(scen)
-    R.extra["graph_edges_executed"] = sum(s["edges"] for s in scen)
+    pinned = pinned_scenarios()
+    scen += pinned
+    R.extra["pinned_scenarios"] = len(pinned)
+    R.extra["graph_edges_executed"] = sum(s.get("edges", 0) for s in scen)
 
     # ------------------------------------------------------------------ 3. code -> spec: random drivers
     n_rand = {"bare_mps": 3000, "bare_sn": 1200, "model_mps": 160, "model_sn": 160} if thorough else \
-             {"bare_mps": 500, "bare_sn": 200, "model_mps": 24, "model_sn": 24}
+             {"bare_mps": 400, "bare_sn": 200, "model_mps": 24, "model_sn": 24}
     for drv, k in n_rand.items():
         for _ in range(k):
             sc = random_scenario(rng, drv)
@@ -1170,7 +1280,7 @@ def run(tier: str, seed: int, replay: Optional[str] = None) -> int:
     R.extra.update(stats)
     R.extra["events_executed"] = n_events
     R.extra["graph_scenarios"] = n_graph_scen
-    R.extra["random_scenarios"] = len(scen) - n_graph_scen
+    R.extra["random_scenarios"] = len(scen) - n_graph_scen - len(pinned)
     timing["validated"] = round(time.time() - T0, 1)
     return R.finish()
 
